@@ -53,11 +53,20 @@ def run(ctx, add):
                         plan, reg = uj.Plan(), uj.Registry()
                         s0 = reg.source(plan, primary)
                         deps = []
+                        # the order in which the user registers things must not matter: the dependent source may be registered
+                        # before or after the stored values it depends on
+                        source_first = (ndeps + nsucc + slow_i) % 2 == 1
+                        view = reg.source(plan, View(parts)) if source_first else None
                         for i, st in enumerate(parts):
                             n = plan.call(lambda x, i=i: x * (i + 2), s0)
-                            reg.add(n, st)
+                            if not source_first:
+                                reg.add(n, st)
                             deps.append(n)
-                        view = reg.source(plan, View(parts))
+                        if source_first:
+                            for n, st in zip(deps, parts):
+                                reg.add(n, st)
+                        else:
+                            view = reg.source(plan, View(parts))
                         for n in deps:
                             plan.add_dependency(n, view)
                         outs = []
